@@ -417,14 +417,15 @@ def treat_as_structured_types(k: int, k2: int) -> bool:
     return True
 
 
-@ob(budget=120, bound='every one of the 23 built-in function templates called with the EMPTY sequence for its sequence argument (integer and string '
-                      'arguments symbolic): the result matches the registered return type',
+@ob(budget=120, bound='every one of the 23 built-in function templates called with the EMPTY sequence for its sequence argument (integer argument in [-2, 2], string '
+                      'arguments empty or one letter): the result matches the registered return type',
     funcs=['elementpath/xpath1/xpath1_parser.py:function registration', ST + ':match_sequence_type'])
-def returns_on_empty_sequence(a: int, s: str, t: str) -> bool:
+def returns_on_empty_sequence(a: int, sb: bool, tb: bool) -> bool:
     """
-    pre: len(s) <= 1 and len(t) <= 1
+    pre: -2 <= a <= 2
     post: _
     """
+    s, t = ('a' if sb else ''), ('b' if tb else '')
     for f in sorted(FUNCS):
         rt = _return_type(f)
         try:
